@@ -202,6 +202,19 @@ Definition set_to_wait (s : state) (t : nat) (ws : status) : state :=
   else change_st (with_tasks s (upd (tasks s) t (fun tk => set_waited tk ws))) t Wait.
 
 (* ------------------------------------------------------------------ Change.abortLanes / abortTasks *)
+(* Task.SetStatus while Change.aborting is set (commit d3068df: deferReadyDetection): detectChangeReady returns at
+   once, so a status write made by Abort / AbortLanes / AbortUnreadyLanes only rewrites the task *)
+Definition set_status_quiet (s : state) (t : nat) (nw : status) : state :=
+  if seqb nw Done && seqb (st s t) Abort then s
+  else with_tasks s (upd (tasks s) t (fun tk => set_st tk nw)).
+
+Definition all_ready (l : list task) : bool := forallb (fun tk => ready (t_st tk)) l.
+
+(* the function returned by Change.deferReadyDetection, run when the outermost abort returns: the internal check
+   (ready change that is no longer ready -> panic), then one detectChangeReady(nil) on the final statuses *)
+Definition ready_detect (s : state) : state :=
+  if all_ready (tasks s) then (if cready s then s else with_cready s true)
+  else if cready s then with_panicked s true else s.
 (* the inner loops of abortLanes' first pass for one task: walk its lanes in order; stop at the first lane
    that is in the kill list (the task is a lane task); before that, record an opinion about foreign lanes *)
 Fixpoint scan_lanes (kill tl : list nat) (live : bool) (hl hd : list nat) : bool * list nat * list nat :=
@@ -247,9 +260,9 @@ Fixpoint abort_loop (f : nat) (wl : list nat) (al seen : list nat) (s : state) (
         let seen' := t :: seen in
         let tk := get s t in
         let s' := match eff_status tk with
-                  | Do => set_status s t Hold
-                  | Doing => set_status s t Abort
-                  | Done => set_status s t Undo
+                  | Do => set_status_quiet s t Hold
+                  | Doing => set_status_quiet s t Abort
+                  | Done => set_status_quiet s t Undo
                   | _ => s
                   end in
         let lanes' := lanes ++ extra_lanes tk al in
@@ -289,9 +302,11 @@ Definition abort_tasks (d : nat) (wl al seen : list nat) (s : state) : state :=
 Definition depth_fuel (s : state) : nat := S (S (length (flat_map lanes_of (tasks s)))).
 
 (* Change.AbortLanes *)
-Definition abort_lanes_top (s : state) (lanes : list nat) : state := abort_lanes (depth_fuel s) lanes [] [] s.
+Definition abort_lanes_top (s : state) (lanes : list nat) : state :=
+  ready_detect (abort_lanes (depth_fuel s) lanes [] [] s).
 (* Change.Abort *)
-Definition abort_change (s : state) : state := abort_tasks (depth_fuel s) (seq 0 (length (tasks s))) [] [] s.
+Definition abort_change (s : state) : state :=
+  ready_detect (abort_tasks (depth_fuel s) (seq 0 (length (tasks s))) [] [] s).
 
 (* ------------------------------------------------------------------ TaskRunner *)
 (* tryUndo *)
@@ -385,60 +400,6 @@ Definition step (s : state) (e : event) : state :=
   end.
 
 Definition run_events (s : state) (es : list event) : state := fold_left step es s.
-
-(* ------------------------------------------------------------------ the proposed repair of Change.Abort
-   (notes/C03-fix.diff): readiness detection is suspended while the abort rewrites the statuses and is
-   done once at the end. *)
-Definition set_status_quiet (s : state) (t : nat) (nw : status) : state :=
-  if seqb nw Done && seqb (st s t) Abort then s
-  else with_tasks s (upd (tasks s) t (fun tk => set_st tk nw)).
-
-Fixpoint abort_loop_q (f : nat) (wl : list nat) (al seen : list nat) (s : state) (lanes : list nat)
-  : state * list nat * list nat :=
-  match f with
-  | O => (match wl with [] => s | _ => with_oof s true end, seen, lanes)
-  | S f' =>
-    match wl with
-    | [] => (s, seen, lanes)
-    | t :: rest =>
-      if memn t seen then abort_loop_q f' rest al seen s lanes
-      else
-        let seen' := t :: seen in
-        let tk := get s t in
-        let s' := match eff_status tk with
-                  | Do => set_status_quiet s t Hold
-                  | Doing => set_status_quiet s t Abort
-                  | Done => set_status_quiet s t Undo
-                  | _ => s
-                  end in
-        abort_loop_q f' (rest ++ filter (fun h => negb (memn h seen')) (t_halts tk)) al seen' s'
-                     (lanes ++ extra_lanes tk al)
-    end
-  end.
-
-Fixpoint abort_lanes_q (d : nat) (kill al seen : list nat) (s : state) : state :=
-  match d with
-  | O => with_oof s true
-  | S d' =>
-    let sel := select_abort (tasks s) kill in
-    let al' := kill ++ al in
-    match sel with
-    | [] => s
-    | _ => let '(s', seen', lanes) := abort_loop_q (loop_fuel s sel) sel al' seen s [] in
-           match lanes with [] => s' | _ => abort_lanes_q d' lanes al' seen' s' end
-    end
-  end.
-
-Definition all_ready (l : list task) : bool := forallb (fun tk => ready (t_st tk)) l.
-
-(* repaired Change.Abort: quiet rewrite, then one readiness detection *)
-Definition abort_change_fixed (s : state) : state :=
-  let wl := seq 0 (length (tasks s)) in
-  let '(s', seen', lanes) := abort_loop_q (loop_fuel s wl) wl [] [] s [] in
-  let s2 := match lanes with [] => s' | _ => abort_lanes_q (depth_fuel s) lanes [] seen' s' end in
-  if all_ready (tasks s2) then
-    (if cready s2 then s2 else with_cready s2 true)
-  else if cready s2 then with_panicked s2 true else s2.
 
 (* ------------------------------------------------------------------ correspondence interface *)
 (* task description of a generated graph: lanes, wait tasks, has an undo handler *)
@@ -706,8 +667,8 @@ Definition monitor_fail01 (c : case) : bool :=
 
 (* C03: the reported change status is the documented aggregate of the task statuses (independent statement
    below), IsReady <-> ready time set, once ready never again unready and the status stays ready, the change is
-   ready exactly when every task is ready, Err names exactly the failed tasks.  The panic of finding 11
-   (Change.Abort on an unready change) is reported by the dedicated monitor f11_fail, not here. *)
+   ready exactly when every task is ready, Err names exactly the failed tasks.  A panic in a user abort
+   of an unready change (finding 11, repaired by d3068df) is a violation here and in the regression monitor f11_fail. *)
 Definition waits_g (g : list tdesc) (t : nat) : list nat := snd (fst (nth t g ([], [], false))).
 
 (* a pending (Do / Undo) task is blocked by waiting tasks: all its prerequisites (wait tasks for Do, halt tasks for
@@ -762,19 +723,19 @@ Fixpoint ready_scan (g : list tdesc) (was : bool) (evs : list (event * obs)) : b
     && ready_scan g (o_ready o) r
   end.
 
-(* a panic anywhere except in a user abort is a violation; a panic in a user abort issued on a READY change is
-   outside the property's quantifier (the REST API refuses it); on an unready change it is finding 11 *)
+(* a panic anywhere except in a user abort of a READY change is a violation (the REST API refuses to abort a ready
+   change; aborting an unready one must never panic: regression of finding 11, repaired by d3068df) *)
 Fixpoint panic_scan (was : bool) (evs : list (event * obs)) : bool :=
   match evs with
   | [] => true
   | (e, o) :: r =>
-    (if o_panic o then match e with UAbort => true | _ => false end else true) && panic_scan (o_ready o) r
+    (if o_panic o then match e with UAbort => was | _ => false end else true) && panic_scan (o_ready o) r
   end.
 
 Definition monitor_fail03 (c : case) : bool :=
   let 'Case g evs := c in negb (ready_scan g false evs) || negb (panic_scan false evs).
 
-(* finding 11: Change.Abort on an unready change panicked *)
+(* regression monitor for finding 11 (repaired): Change.Abort on an unready change panicked *)
 Fixpoint f11_scan (was : bool) (evs : list (event * obs)) : bool :=
   match evs with
   | [] => false
